@@ -391,6 +391,22 @@ func (e *Exec) needBitLib() {
 
 // cmdLemmas re-proves the library.
 func cmdLemmas(args []string) int {
+	facts, instances, fails, slowest, msgs := proveLemmaLibrary(true)
+	for _, m := range msgs {
+		fmt.Println(m)
+	}
+	fmt.Printf("lemma library: %d facts, %d instances re-proved, %d failed, slowest %.2fs\n", facts, instances-fails, fails, slowest)
+	if fails > 0 {
+		return 1
+	}
+	if len(args) > 0 && args[0] == "--json" {
+		fmt.Fprintf(os.Stdout, "{\"facts\": %d, \"instances\": %d}\n", facts, instances)
+	}
+	return 0
+}
+
+// proveLemmaLibrary re-proves every non-definitional fact of the bit library (one query per bit index and cut).
+func proveLemmaLibrary(verbose bool) (facts, instances, fails int, slowest float64, msgs []string) {
 	type job struct {
 		lemma string
 		k     int
@@ -399,7 +415,7 @@ func cmdLemmas(args []string) int {
 	var jobs []job
 	for _, l := range bitLemmas {
 		if l.Assumed != "" {
-			fmt.Printf("assumed (not proved): %s: %s\n", l.Name, l.Assumed)
+			msgs = append(msgs, fmt.Sprintf("assumed (not proved): %s: %s", l.Name, l.Assumed))
 			continue
 		}
 		ks := []int{0}
@@ -424,8 +440,6 @@ func cmdLemmas(args []string) int {
 		}
 	}
 	var mu sync.Mutex
-	fails := 0
-	slowest := 0.0
 	ch := make(chan job)
 	var wg sync.WaitGroup
 	for i := 0; i < 16; i++ {
@@ -437,7 +451,7 @@ func cmdLemmas(args []string) int {
 				mu.Lock()
 				if r.Status != "unsat" {
 					fails++
-					fmt.Printf("LEMMA NOT PROVED: %s k=%d: %s\n", j.lemma, j.k, r.Status)
+					msgs = append(msgs, fmt.Sprintf("LEMMA NOT PROVED: %s k=%d: %s", j.lemma, j.k, r.Status))
 				}
 				if r.Time > slowest {
 					slowest = r.Time
@@ -451,12 +465,5 @@ func cmdLemmas(args []string) int {
 	}
 	close(ch)
 	wg.Wait()
-	fmt.Printf("lemma library: %d facts, %d instances re-proved, %d failed, slowest %.2fs\n", len(bitLemmas), len(jobs)-fails, fails, slowest)
-	if fails > 0 {
-		return 1
-	}
-	if len(args) > 0 && args[0] == "--json" {
-		fmt.Fprintf(os.Stdout, "{\"facts\": %d, \"instances\": %d}\n", len(bitLemmas), len(jobs))
-	}
-	return 0
+	return len(bitLemmas), len(jobs), fails, slowest, msgs
 }
